@@ -147,6 +147,30 @@ def run(ctx, args):
     sigs, consumed, errors = _trace(ctx, 'TraceFn', e3, os.path.join(base, 'n2'))
     results.append(('skipped input in the enumeration -> tool error (INCOMPLETE), not a verdict', bool(errors), [x[:80] for x in errors[:1]]))
 
+    # ---- design-level negative controls: each deviation switch reproduces a (former) defect of the pinned
+    # tree inside the bounded model; TLC must find the corresponding property violation -------------------
+    def mc_must_fail(name, module, consts, invariants, properties, want):
+        cfg_text = core.mc_cfg(consts, invariants, properties)
+        rc, out, wall = core.run_tlc(ctx, module, cfg_text, os.path.join(base, 'neg_' + name), workers=4, timeout=300)
+        hit = ('is violated' in out) and (want in out)
+        results.append(('deviation %s -> TLC reports %s violated' % (name, want), hit, []))
+    def c(scen, dev, maxv, maxa, maxc, probe):
+        return {'Dev': '{"%s"}' % dev, 'Scenario': '"%s"' % scen, 'VCodecs': '{"h264"}', 'ACodecs': '{"aac"}', 'MaxV': maxv, 'MaxA': maxa,
+                'MaxCalls': maxc, 'MaxProbe': probe, 'Thorough': 'FALSE'}
+    inv = ('FileOK', 'TwoPassStable')
+    prop = ('StutterOnReject', 'FinishOnce')
+    mc_must_fail('FirstPtsBeforeInnerWrite', 'MCMuxide', c('reject', 'FirstPtsBeforeInnerWrite', 2, 2, 4, 1), inv, prop, 'StutterOnReject')
+    mc_must_fail('BackpatchBeforeValidate', 'MCMuxide', c('reject', 'BackpatchBeforeValidate', 2, 2, 4, 1), inv, prop, 'StutterOnReject')
+    mc_must_fail('StatsFromLastSample', 'MCMuxide', c('av', 'StatsFromLastSample', 3, 2, 5, 0), inv, prop, 'FileOK')
+    mc_must_fail('OffsetsInPtsOrder', 'MCMuxide', c('av', 'OffsetsInPtsOrder', 3, 2, 5, 0), inv, prop, 'FileOK')
+    mc_must_fail('MeasureWithoutEmptyAudioTrak', 'MCMuxide', c('av', 'MeasureWithoutEmptyAudioTrak', 2, 1, 3, 0), inv, prop, 'TwoPassStable')
+    mc_must_fail('TfdtFromAverage', 'MCFrag', {'MaxCalls': 6, 'Steps': '<- StepsC', 'Ctss': '<- CtsA', 'FDev': '{"TfdtFromAverage"}', 'VC': '"h264"', 'Start0': 9000},
+                 ('Conservation', 'SeqNumbersOK', 'SegOK'), ('RejectQueuesNothing', 'EmptyFlushOK'), 'SegOK')
+    for dev, want in (('WriteNotAll', 'PrefixAlways'), ('RetryAfterFail', 'SilentAfterFailure')):
+        cfg_text = core.mc_cfg({'FLen': 6, 'MaxBuf': 4, 'MaxIntr': 2, 'SDev': '{"%s"}' % dev}, ('PrefixAlways', 'ErrIffFailed', 'ShortWritesHarmless'), ('SilentAfterFailure',), spec='SSpec')
+        rc, out, wall = core.run_tlc(ctx, 'MuxideSink', cfg_text, os.path.join(base, 'neg_' + dev), workers=2, timeout=120)
+        results.append(('deviation %s -> TLC reports %s violated' % (dev, want), ('is violated' in out) and (want in out), []))
+
     ok = all(r[1] for r in results)
     for name, good, detail in results:
         core.log(('PASS  ' if good else 'FAIL  ') + name + ('' if good else '  ' + json.dumps(detail)))
